@@ -3,7 +3,7 @@ import LyModel.Yin.LemmasStep
 set_option linter.unusedSimpArgs false
 set_option linter.unusedVariables false
 namespace LyModel.Yin
-open LyModel LyModel.Utf8 LyModel.Generated LyModel.XmlText
+open LyModel LyModel.Utf8 LyModel.Generated LyModel.XmlText LyModel.XmlLex
 
 /-- what `yin_validate_value` accepts is a string the XML lexer can have produced -/
 theorem yangText_of_valid : ∀ (fuel : Nat) (s : Bytes), YangStr.validText fuel s = true → YangText s
